@@ -10,6 +10,7 @@ import (
 	"fmt"
 	"strings"
 	"testing"
+	"time"
 
 	"github.com/ClickHouse/ch-go/proto"
 	"pgregory.net/rapid"
@@ -467,6 +468,93 @@ func TestC16EnumReinfer(t *testing.T) {
 		})
 		st.Case(stats.Hash("c16e", strings.Join(log, ",")), reinfers > 0, func() any {
 			return map[string]any{"kind": "enum-reinfer-history", "history": strings.Join(log, " → ")}
+		})
+	})
+}
+
+// A ColDateTime64 / ColDateTime reused across results whose precision or zone differ
+// must behave as a column of the type it was last inferred with.
+func TestC16DateTimeReinfer(t *testing.T) {
+	st := stats.G()
+	rapid.Check(t, func(rt *rapid.T) {
+		col := new(proto.ColDateTime64)
+		if rapid.Bool().Draw(rt, "created-with-precision") {
+			col.WithPrecision(proto.Precision(rapid.IntRange(0, 9).Draw(rt, "initial-precision")))
+		}
+		cur := -1
+		var log []string
+		changes := 0
+		infer := func(rt *rapid.T) {
+			p := rapid.IntRange(0, 9).Draw(rt, "precision")
+			tn := fmt.Sprintf("DateTime64(%d)", p)
+			if rapid.Bool().Draw(rt, "with-zone") {
+				tn = fmt.Sprintf("DateTime64(%d, 'UTC')", p)
+			}
+			if err := col.Infer(proto.ColumnType(tn)); err != nil {
+				rt.Fatalf("Infer(%q): %v", tn, err)
+			}
+			if cur >= 0 && cur != p {
+				changes++
+			}
+			cur = p
+			log = append(log, "infer "+tn)
+		}
+		infer(rt)
+		tps := func() int64 {
+			v := int64(1)
+			for i := 0; i < cur; i++ {
+				v *= 10
+			}
+			return v
+		}
+		rt.Repeat(map[string]func(*rapid.T){
+			"infer": infer,
+			"decode": func(rt *rapid.T) {
+				// the way Results.DecodeResult reuses a column: Infer was called, then Reset, then DecodeColumn
+				raw := rapid.Int64Range(-2208988800*tps(), 9223372035*tps()).Draw(rt, "raw")
+				col.Reset()
+				var b [8]byte
+				for i := range b {
+					b[i] = byte(uint64(raw) >> (8 * i))
+				}
+				if err := libDecodeColumn(col, b[:], 1); err != nil {
+					rt.Fatalf("decode: %v", err)
+				}
+				log = append(log, fmt.Sprintf("reset+decode %d", raw))
+				got := col.Row(0)
+				sec := raw / tps()
+				rem := raw % tps()
+				if rem < 0 {
+					sec--
+					rem += tps()
+				}
+				wantNs := rem * (1_000_000_000 / tps())
+				if got.Unix() != sec || int64(got.Nanosecond()) != wantNs {
+					rt.Fatalf("column last inferred as DateTime64(%d) decodes %d ticks as %d.%09d, want %d.%09d\nhistory: %s", cur, raw, got.Unix(), got.Nanosecond(), sec, wantNs, strings.Join(log, " → "))
+				}
+				if !strings.HasPrefix(string(col.Type()), fmt.Sprintf("DateTime64(%d", cur)) {
+					rt.Fatalf("Type() = %q after Infer with precision %d", col.Type(), cur)
+				}
+			},
+			"append-encode": func(rt *rapid.T) {
+				sec := rapid.Int64Range(-2208988800, 9223372035).Draw(rt, "sec")
+				col.Reset()
+				col.Append(time.Unix(sec, 0))
+				var buf proto.Buffer
+				col.EncodeColumn(&buf)
+				want := sec * tps()
+				var got int64
+				for i := 0; i < 8; i++ {
+					got |= int64(buf.Buf[i]) << (8 * i)
+				}
+				log = append(log, fmt.Sprintf("reset+append+encode %d", sec))
+				if got != want {
+					rt.Fatalf("column last inferred as DateTime64(%d) encodes second %d as %d ticks, want %d\nhistory: %s", cur, sec, got, want, strings.Join(log, " → "))
+				}
+			},
+		})
+		st.Case(stats.Hash("c16dt", strings.Join(log, ",")), changes > 0, func() any {
+			return map[string]any{"kind": "datetime64-reinfer-history", "history": strings.Join(log, " → ")}
 		})
 	})
 }
